@@ -112,7 +112,8 @@ def rule_consumers(ctx, f):
 def rule_adapters(ctx, f):
     ctx.rule("C12-G2", "NoCache::get_or_compute calls the closure on every path; the SyncCache adapter forwards key and closure unchanged")
     impls = [i for i in f.impls if i.get("trait") == "file::Cache"]
-    ctx.floor("C12-G2", len(impls), 2, "Cache implementations (NoCache, Arc<SyncCache>)")
+    # the SyncCache adapter exists only with the `cache` feature
+    ctx.floor("C12-G2", len(impls), 2 if "cache" in f.features else 1, "Cache implementations (NoCache, Arc<SyncCache>)")
     for im in impls:
         gid = [p for n, p in im["items"] if n == "get_or_compute"]
         b = f.body(gid[0]) if gid else None
